@@ -9,16 +9,16 @@ Open Scope list_scope.
 Lemma prec_all_ok : prec_all = true.
 Proof. vm_cast_no_check (eq_refl true). Qed.
 
-(* `label` is a leaf of every style; as long as the DEFAULTS literal does not list it, show(obj, style_label=..)
-   is rejected: validate_style_keys only knows the first-level keys of the literal.  (Once the literal lists it,
-   the hypothesis is false and `label` is covered by prec_all like every other leaf.) *)
-Lemma show_label_witness :
-  smem "label" valid_keys = false ->
-  snd (get_style colors (class_schema "Cuboid") (class_families "Cuboid") dstyle_schema
-                 (def_style_state pristine) valid_keys (fresh_state (class_schema "Cuboid"))
-                 (show_style_kwargs [("style_label", Leaf (Some (VStr "lbl")))])) = Some EValue
-  /\ has_leaf (class_schema "Cuboid") ["label"] = true.
+(* show() accepts style_label: `label` is among the first-level keys of the DEFAULTS literal, so it is one of
+   the leaves prec_all ranges over (for every class) *)
+Lemma show_label_covered :
+  smem "label" valid_keys = true /\ prec_leaf KToStr ["label"] = true /\
+  In "Cuboid" public_classes /\ In (["label"], KToStr, false) (sleaves (class_schema "Cuboid")) /\
+  prec_holds "Cuboid" ["label"] (VStr "shown") (VStr "own") (VStr "fam") (VStr "gen") (VStr "base")
+             (mkSrc true true false false true) false NAttr = true.
 Proof.
-  intros H. vm_compute in H.
-  first [discriminate H | split; vm_compute; reflexivity].
+  split; [vm_compute; reflexivity|]. split; [vm_compute; reflexivity|].
+  split; [left; reflexivity|].
+  split; [apply (nth_error_In _ (leaf_index (class_schema "Cuboid") ["label"])); vm_compute; reflexivity|].
+  vm_compute. reflexivity.
 Qed.
